@@ -88,24 +88,22 @@ impl<'source> LoaderStore<'source> {
         source: Cow<'source, str>,
     ) -> Result<(), Error> {
         match (source, name) {
+            // the new template is compiled first so that a failure leaves
+            // the store untouched.
             (Cow::Borrowed(source), Cow::Borrowed(name)) => {
-                self.owned_templates.remove(name);
-                self.borrowed_templates.insert(
+                let compiled = Arc::new(ok!(CompiledTemplate::new(
                     name,
-                    Arc::new(ok!(CompiledTemplate::new(
-                        name,
-                        source,
-                        &self.template_config
-                    ))),
-                );
+                    source,
+                    &self.template_config
+                )));
+                self.owned_templates.remove(name);
+                self.borrowed_templates.insert(name, compiled);
             }
             (source, name) => {
+                let key: Arc<str> = Arc::from(&name as &str);
+                let compiled = ok!(self.make_owned_template(key.clone(), source.to_string()));
                 self.borrowed_templates.remove(&name as &str);
-                let name: Arc<str> = name.into();
-                self.owned_templates.replace(
-                    name.clone(),
-                    ok!(self.make_owned_template(name, source.to_string())),
-                );
+                self.owned_templates.replace(key, compiled);
             }
         }
 
